@@ -568,3 +568,11 @@ mod test {
         }
     }
 }
+
+#[cfg(curve25519_dalek_verif)]
+impl CachedPoint {
+    /// Verification hook: the four cached lanes.
+    pub(crate) fn verif_inner(&self) -> FieldElement2625x4 {
+        self.0
+    }
+}
